@@ -9,11 +9,7 @@ Study.optimize / Study.tell, (c) writes down what the study looks like afterward
 """
 from __future__ import annotations
 
-import copy
 import itertools
-import json
-import os
-import random
 import tempfile
 
 from . import common, tlc
@@ -166,8 +162,6 @@ def project_exc(e, impl):
 # running one scenario on the real code
 # ----------------------------------------------------------------------------------------------------------------
 def make_storage(kind, workdir):
-    import optuna
-
     if kind == "inmemory":
         return None
     path = tempfile.mktemp(prefix="c02-", dir=workdir)
@@ -195,8 +189,10 @@ def make_sampler_pruner(impl, script, nobj):
     e2 = E2_CLASSES[impl["e2"] % len(E2_CLASSES)]
     e1sub = E1_CLASSES[impl["e1"] % len(E1_CLASSES)][1]
 
+    armed = [False]   # the study is prepared (pre-existing trials) with a sampler that does not misbehave
+
     def entry(number):
-        return script[number] if number < len(script) else None
+        return script[number] if armed[0] and number < len(script) else None
 
     def exc_for(kind):
         return e1sub("scripted") if kind == "E1" else e2("scripted")
@@ -242,7 +238,7 @@ def make_sampler_pruner(impl, script, nobj):
                 raise exc_for(s["o"]["kind"])
             return pbase.prune(study, trial)
 
-    return ScriptedSampler(), ScriptedPruner(), exc_for
+    return ScriptedSampler(), ScriptedPruner(), exc_for, armed
 
 
 def make_objective(scn, exc_for):
@@ -292,8 +288,10 @@ def run_opt_scenario(scn, workdir):
     script = [dict(s) for s in scn["script"]]
     for s in script:   # how an E1/E2 exception gets raised: directly, from the pruner, from the sampler
         s["_via"] = ["raise", "raise", "pruner", "sampler"][s["var"] % 4] if s["o"]["kind"] in ("E1", "E2") else "raise"
+        if s["_via"] == "pruner" and cfg["nobj"] > 1:      # should_prune is not available on multi-objective studies
+            s["_via"] = "raise"
     run = {"cfg": cfg, "script": script, "impl": impl}
-    sampler, pruner, exc_for = make_sampler_pruner(impl, script, cfg["nobj"])
+    sampler, pruner, exc_for, armed = make_sampler_pruner(impl, script, cfg["nobj"])
     storage = make_storage(impl.get("storage", "inmemory"), workdir)
     study = optuna.create_study(storage=storage, directions=["minimize", "maximize", "minimize"][: cfg["nobj"]],
                                 sampler=sampler, pruner=pruner)
@@ -304,6 +302,7 @@ def run_opt_scenario(scn, workdir):
             study.enqueue_trial({"x": 0.5})
         else:
             study.ask()
+    armed[0] = True
     cb_a, cb_b = [], []
 
     def seen(frozen):
@@ -326,9 +325,10 @@ def run_opt_scenario(scn, workdir):
                        callbacks=[callback_a, callback_b], n_jobs=cfg["jobs"])
     except BaseException as e:  # noqa: the escaping exception is the observation
         escaped = e
-    trials = [project_trial(t) for t in study.get_trials(deepcopy=True)]
-    if cfg["jobs"] > 1:   # callback order across threads is not part of the property: canonical order by trial
-        pass
+    try:
+        trials = [project_trial(t) for t in study.get_trials(deepcopy=True)]
+    except Exception as e:  # noqa: a study that cannot be read back any more is an observation, not a harness problem
+        trials = [{"state": "UNREADABLE", "values": [type(e).__name__]}]
     final = {"a": "final", "trials": trials, "cbA": cb_a, "cbB": cb_b, "raised": project_exc(escaped, impl)}
     if escaped is not None and final["raised"].startswith("X:"):
         final["raw"] = repr(escaped)[:200]
@@ -363,7 +363,10 @@ def run_tell_scenario(scn, workdir):
             handle_obj.report(pool[impl.get("seed", 0) % len(pool)], 2)
 
     def read():
-        return project_trial(study.get_trials(deepcopy=True)[number])
+        try:
+            return project_trial(study.get_trials(deepcopy=True)[number])
+        except Exception as e:  # noqa: see run_opt_scenario
+            return {"state": "UNREADABLE", "values": [type(e).__name__]}
 
     events = []
     for call in scn["calls"]:
@@ -412,7 +415,8 @@ def entry(o, rng, saA="ok", saT="ok", cb="ok"):
 
 
 def calm(rng, nobj):
-    return {"k": "ret", "kind": rng.choice(["float", "int", "list_ok"]), "stop": 0, "rep": "none"}
+    return {"k": "ret", "kind": rng.choice(["float", "int", "list_ok"] if nobj == 1 else ["list_ok"]), "stop": 0,
+            "rep": "none"}
 
 
 def pad_script(script, cfg, rng):
@@ -546,13 +550,17 @@ def known_symptom(item):
                 return SIG_F1
             if s["o"]["k"] == "ret" and s["o"]["kind"] == "hostile":
                 return SIG_HOSTILE
-        if scn["cfg"]["jobs"] > 1 and fin["raised"] == "none" and any(
-                t["state"] == "FAIL" and idx < len(scn["script"]) and
-                scn["script"][idx]["o"]["k"] == "raise" and
-                (scn["script"][idx]["o"]["kind"] in ("E2", "KI") or
-                 (scn["script"][idx]["o"]["kind"] == "E1" and scn["cfg"]["catch"] == 0))
-                for idx, t in enumerate(fin["trials"])):
-            return SIG_F12
+        if scn["cfg"]["jobs"] > 1 and fin["raised"] == "none":
+            logged = {x["n"] - 1 for x in fin["cbA"]}
+            for idx, t in enumerate(fin["trials"]):
+                s = scn["script"][idx] if idx < len(scn["script"]) else None
+                if s is None or idx < len(scn["cfg"]["pre"]) and scn["cfg"]["pre"][idx] != "W":
+                    continue
+                o = s["o"]
+                uncaught = o["k"] == "raise" and (o["kind"] in ("E2", "KI") or (o["kind"] == "E1" and scn["cfg"]["catch"] == 0))
+                if t["state"] in ("COMPLETE", "PRUNED", "FAIL") and (
+                        (uncaught and t["state"] == "FAIL") or s["saT"] == "raise" or (s["cb"] == "raise" and idx in logged)):
+                    return SIG_F12
         return None
     for e in item["events"]:
         if e["pre"]["state"] == "RUNNING" and e["post"]["state"] == "RUNNING" and e["st"] == "None" and e["reply"] != "ok":
@@ -590,7 +598,7 @@ def judge(ctx, items, label):
                       tell_trace(tid, it["scn"], it["events"]))
     v = tlc.validate("StudyLoopTrace", "StudyLoopTrace", traces, shards=16, timeout=1500)
     ctx.validated(v, label)
-    n_viol = 0
+    per_sig = {}
     for tid in sorted(v.rejected):
         it = items[tid - 1]
         sig = known_symptom(it)
@@ -598,13 +606,15 @@ def judge(ctx, items, label):
         if f is not None:
             ctx.known_finding(f, describe(it)[:300])
             continue
-        if n_viol < 8:
+        k = per_sig[sig] = per_sig.get(sig, 0) + 1
+        if k <= (2 if sig else 8):     # a defect class is shown by two runs; unexplained rejections by up to eight
             ctx.violation((f"[{sig}] " if sig else "") + describe(it)[:1800],
                           {"type": it["type"], "scenario": it["scn"], "recorded": it.get("final") or it.get("events"),
                            "signature": sig})
-        n_viol += 1
-    if n_viol > 8:
-        print(f"[{ctx.pid}] ... {n_viol - 8} more rejected runs not listed", flush=True)
+    for sig, k in per_sig.items():
+        if k > (2 if sig else 8):
+            print(f"[{ctx.pid}] ... {k - (2 if sig else 8)} more rejected runs of class {sig or 'unexplained'} not listed",
+                  flush=True)
     seen = set()
     for p in v.prints:
         if p and p[0] == "DRIFT":
@@ -616,6 +626,11 @@ def judge(ctx, items, label):
                 ctx.drift.append(f"tell(values:{e['vk']}, state={e['st']}, skip_if_finished={e['skip']}) on a "
                                  f"{e['pre']['state']} trial replied {e['reply']} and left it {e['post']['state']}: differs "
                                  f"from the documented argument table (finished trials untouched, so not a violation)")
+        if p and p[0] == "OTHEREXC" and "otherexc" not in seen:
+            seen.add("otherexc")
+            it = items[p[1] - 1]
+            ctx.drift.append(f"sampler.after_trial raised: {it['final'].get('raw', it['final']['raised'])} escaped optimize "
+                             f"instead of the sampler's exception (trials well-formed, so not a violation)")
     return v, traces
 
 
@@ -649,17 +664,26 @@ def run(ctx):
     rng = ctx.rng
     workdir = tempfile.mkdtemp(prefix="c02-", dir=tlc.scratch())
     plan = [("opt", s) for s in systematic_single(rng)]
+    # the two design-time scenarios in their smallest form: F12 (both in-flight trials raise an exception that is not
+    # in catch, n_jobs=2, n_trials=2) and a sampler that raises while study.ask() builds the Trial object
+    e2 = {"k": "raise", "kind": "E2", "stop": 0, "rep": "none"}
+    plan.append(("opt", {"cfg": {"nobj": 1, "catch": 0, "n": 2, "jobs": 2, "pre": []},
+                         "script": [entry(e2, rng) for _ in range(3)], "impl": rand_impl(rng)}))
+    for var in (0, 1):
+        cfg = {"nobj": 1, "catch": 0, "n": 1, "jobs": 1, "pre": []}
+        plan.append(("opt", {"cfg": cfg, "script": pad_script([dict(entry(calm(rng, 1), rng, saA="raise"), var=var)], cfg, rng),
+                             "impl": rand_impl(rng)}))
     plan += [("opt", s) for s in scenarios_from_tlc(ctx, "StudyLoopMC_sim1", 150 if q else 1500, 40, rng)]
     plan += [("opt", s) for s in scenarios_from_tlc(ctx, "StudyLoopMC_sim2", 40 if q else 400, 60, rng)]
     plan += [("opt", s) for s in random_scenarios(rng, 700 if q else 8000)]
-    plan += [("opt", s) for s in random_scenarios(rng, 30 if q else 400, storage="sqlite")]
-    plan += [("opt", s) for s in random_scenarios(rng, 30 if q else 400, storage="journal")]
+    plan += [("opt", s) for s in random_scenarios(rng, 20 if q else 400, storage="sqlite")]
+    plan += [("opt", s) for s in random_scenarios(rng, 20 if q else 400, storage="journal")]
     plan += [("opt", s) for s in random_scenarios(rng, 40 if q else 600, jobs=2, defect_share=0.0)]
-    f12 = {"cfg": {"nobj": 1, "catch": 0, "n": 2, "jobs": 2, "pre": []},
-           "script": [entry({"k": "raise", "kind": "E2", "stop": 0, "rep": "none"}, rng) for _ in range(3)],
-           "impl": rand_impl(rng)}
-    plan.append(("opt", f12))
-    plan += [("tell", s) for s in tell_scenarios(rng, q)]
+    tells = tell_scenarios(rng, q)
+    plan += [("tell", s) for s in tells]
+    for storage in ("sqlite", "journal"):     # a sample of the tell sequences on the persistent backends
+        for s in rng.sample([t for t in tells if len(t["calls"]) > 1], 15 if q else 300):
+            plan.append(("tell", dict(s, impl=dict(s["impl"], storage=storage))))
     items = execute(plan, workdir)
     for it in items:
         ctx.count_case([it["scn"], it.get("final") or it.get("events")],
